@@ -26,8 +26,8 @@ UNKNOWN == -1
 
 Traces == JsonDeserialize(IOEnv.TRACE_FILE)
 
-VARIABLES calls, dirty, moved, tid, l
-tvars == <<calls, dirty, moved, tid, l>>
+VARIABLES calls, dirty, moved, consmid, tid, l
+tvars == <<calls, dirty, moved, consmid, tid, l>>
 
 Tr == Traces[tid]
 E  == Tr[l]
@@ -43,7 +43,7 @@ IsEvent(name) == l <= Len(Tr) /\ E.ev = name /\ l' = l + 1 /\ UNCHANGED tid
 Finite(e) == e # INF /\ e # NAN /\ e # UNKNOWN
 
 TraceInit == /\ tid \in 1..Len(Traces) /\ l = 2 /\ Traces[tid][1].ev = "New"
-             /\ calls = {} /\ dirty = FALSE /\ moved = FALSE
+             /\ calls = {} /\ dirty = FALSE /\ moved = FALSE /\ consmid = FALSE
 
 TraceCall ==
   /\ IsEvent("Call")
@@ -51,7 +51,7 @@ TraceCall ==
                   <<"C03:cost-called-at-point-violating-constraints", N.randomclip \/ E.consfix>> >>
      IN Probe(cl) /\ AllTrue(cl)
   /\ calls' = calls \cup {<<E.pid, E.tot>>}
-  /\ UNCHANGED <<dirty, moved>>
+  /\ UNCHANGED <<dirty, moved, consmid>>
 
 (* `dirty`: some part of the objective was (re)installed mid-run;  `moved`: that part was the ranges *)
 (* or the constraints, which let a solver move stored points (into the new box / onto the          *)
@@ -61,6 +61,7 @@ TraceCall ==
 TraceSet == /\ IsEvent("Set")
             /\ dirty' = TRUE
             /\ moved' = (moved \/ E.what \in {"ranges", "cons"})
+            /\ consmid' = (consmid \/ E.what = "cons")      \* constraints (re)installed mid-run
             /\ UNCHANGED calls
 
 (* Readings (DESIGN section 4): C01 quantifies over settings fixed before the first    *)
@@ -92,12 +93,16 @@ TraceBoundary ==
                (clean /\ E.init # UNKNOWN /\ E.init # NAN /\ b.e # NAN) => b.e <= E.init>>,
            <<"C01:best-worse-than-a-member",
                (clean /\ N.members) => \A i \in DOMAIN E.members : (E.members[i].stored # NAN /\ b.e # NAN) => b.e <= E.members[i].stored>>,
-           <<"C02:reported-best-outside-strict-ranges", (N.rfs /\ Finite(b.e)) => b.inbox>>,
+           <<"C02:reported-best-outside-strict-ranges", (N.rfs /\ Finite(b.e) /\ ~consmid) => b.inbox>>,
+           \* the same clause once constraints were installed mid-run (a solver that moves a stored point onto the
+           \* new constraint without re-evaluating it can report a stale finite energy at a point outside the box)
+           <<"C02:reported-best-outside-strict-ranges[constraints-installed-mid-run]",
+               (N.rfs /\ Finite(b.e) /\ consmid) => b.inbox>>,
            <<"C03:reported-solution-violates-constraints", (N.cfs /\ ~N.randomclip /\ Finite(b.e)) => b.consfix>>,
            <<"C03:reported-energy-is-not-the-energy-of-the-constrained-point",
                (N.cfs /\ ~N.randomclip /\ clean /\ Finite(b.e) /\ b.inbox /\ b.consfix) => b.e = b.tot>> >>
      IN Probe(cl) /\ AllTrue(cl)
-  /\ UNCHANGED <<calls, dirty, moved>>
+  /\ UNCHANGED <<calls, dirty, moved, consmid>>
 
 TraceNext == TraceCall \/ TraceSet \/ TraceBoundary
 TraceSpec == TraceInit /\ [][TraceNext]_tvars
